@@ -239,7 +239,8 @@ Z2s.callees = {"ladim.ROMS.z2s_kernel": Z2sKernelSorted()}
 
 
 class Sample3DNearest(Spec):
-    """Scalar forcing: the value of the particle's own grid cell at level K."""
+    """Scalar forcing (C02): the value of the particle's own grid cell at ONE OF the two s-levels that bracket the
+    particle, K-1 or K (the pinned code takes K; the property leaves the choice open). K, A are what z2s returns."""
 
     func = "ladim.ROMS.sample3D"
     name = "ROMS.sample3D[nearest]"
@@ -258,17 +259,42 @@ class Sample3DNearest(Spec):
     def requires(self, cx, a):
         n = a.X.shape[0]
         kmax, jm, im = a.F.shape
-        fx, fy, fk = a.X.fn, a.Y.fn, a.K.fn
+        fx, fy, fk, fa = a.X.fn, a.Y.fn, a.K.fn, a.A.fn
         return [
             ("len(Y) == len(X)", V.s_cmp("==", a.Y.shape[0], n)),
             ("len(K) == len(X)", V.s_cmp("==", a.K.shape[0], n)),
+            ("len(A) == len(X)", V.s_cmp("==", a.A.shape[0], n)),
             ("nearest cell inside the arrays", ForallP(n, lambda p: z3.And(fx(p) > R("-1/2"), fx(p) < z3.ToReal(im) - R("1/2"), fy(p) > R("-1/2"), fy(p) < z3.ToReal(jm) - R("1/2")))),
-            ("0 <= K < kmax", ForallP(n, lambda p: z3.And(fk(p) >= 0, fk(p) < kmax))),
+            ("1 <= K < kmax and 0 <= A <= 1 (the postcondition of z2s)", ForallP(n, lambda p: z3.And(fk(p) >= 1, fk(p) < kmax, fa(p) >= 0, fa(p) <= 1))),
         ]
 
     def model(self, cx, a):
+        return NotImplemented
+
+    def fresh_result(self, cx, a):
+        """at a call site: per particle one of the two admissible values, which one is not known (an arbitrary function of
+        the particle index)"""
         F, fx, fy, fk = a.F.fn, a.X.fn, a.Y.fn, a.K.fn
-        return Arr((a.X.shape[0],), lambda p: F(fk(p), V.s_round(fy(p)), V.s_round(fx(p))), "real")
+        cx.fresh_n += 1
+        choice = z3.Function(f"scalar_level_choice!{cx.fresh_n}", z3.IntSort(), z3.BoolSort())
+        own = lambda k, p: F(k, V.s_round(fy(p)), V.s_round(fx(p)))  # noqa: E731
+        return Arr((a.X.shape[0],), lambda p: z3.If(choice(V.to_z3(p)), V.to_z3(own(fk(p), p)), V.to_z3(own(fk(p) - 1, p))), "real")
+
+    def ensures(self, cx, a, result):
+        F, fx, fy, fk = a.F.fn, a.X.fn, a.Y.fn, a.K.fn
+        n = a.X.shape[0]
+        ok = isinstance(result, Arr) and result.ndim == 1
+        out = [("result is one value per particle", V.s_cmp("==", result.shape[0], n) if ok else False)]
+        if ok:
+            r = result.fn
+            own = lambda k, p: F(k, V.s_round(fy(p)), V.s_round(fx(p)))  # noqa: E731
+            out.append(("C02: scalar forcing is the value of the particle's own cell at one of the two bracketing levels (K-1 or K)",
+                        ForallP(n, lambda p: z3.Or(V.to_z3(V.s_cmp("==", r(p), own(fk(p), p))), V.to_z3(V.s_cmp("==", r(p), own(fk(p) - 1, p)))))))
+            from pyvc.spec import own_index_only
+
+            pp = z3.Int("p_own")
+            out.append(("C14: element p of the result depends on particle p's own data only", own_index_only(r(pp), pp, {"X", "Y", "K", "A"})))
+        return out
 
 
 class Sample3DBilinear(Trilinear):
